@@ -103,6 +103,25 @@ def _without(E: Term, R: Term) -> Term:
     return ("comp", "set", ("tuplelit", (a, b)), ((("tuplelit", (a, b)), E, (("not", ("in", a, R)), ("not", ("in", b, R)))),))
 
 
+def _from_edges_args(base: Term):
+    if base[0] == "meth" and base[2] == "from_edges":
+        args, kw = base[3], dict(base[4])
+    elif base[0] == "call" and isinstance(base[1], str) and base[1].endswith("NxMixedGraph.from_edges"):
+        args, kw = base[2], dict(base[3])
+    else:
+        return None
+    names = ("nodes", "directed", "undirected")
+    vals = []
+    for i, nm in enumerate(names):
+        v = kw.get(nm, args[i] if len(args) > i else None)
+        if v == ("const", None):
+            v = None
+        vals.append(v)
+    if set(kw) - set(names) or len(args) > 3:
+        return None
+    return tuple(vals)
+
+
 def denote(t: Term) -> Term | None:
     """The denotation of a graph-effect chain, or None when `t` is not one (or uses an effect this module does not model)."""
     if not (is_term(t) and t[0] in ("accum", "mut")):
@@ -123,6 +142,21 @@ def denote(t: Term) -> Term | None:
         N: Term = EMPTY
         E: Term = EMPTY
         U: Term = EMPTY
+    elif _from_edges_args(base) is not None:
+        # NxMixedGraph.from_edges(nodes, directed, undirected): a fresh graph with exactly these (the builder itself is checked by C14 R14.0)
+        n0, d0, u0 = _from_edges_args(base)
+        N = EMPTY if n0 is None else ("setof", n0)
+        E = EMPTY
+        U = EMPTY
+        if d0 is not None:
+            a, b = _fresh("fa"), _fresh("fb")
+            E = ("setof", d0)
+            N = _union(N, _union(_endpoints(d0, 0), _endpoints(d0, 1)))
+        if u0 is not None:
+            a, b = _fresh("fa"), _fresh("fb")
+            U = ("bigunion", ("comp", "set", ("setlit", (("setlit", (a, b)),)), ((("tuplelit", (a, b)), u0, ()),)))
+            N = _union(N, _union(_endpoints(u0, 0), _endpoints(u0, 1)))
+        mixed = True
     elif base[0] in ("var", "attr", "index", "call", "meth"):
         if mixed:
             N, E, U = ("V", base), ("Ed", base), ("Eu", base)
